@@ -3,9 +3,11 @@
 
 mod c01;
 mod c05;
+mod c06;
 mod c08;
 mod c09;
 mod c12;
+mod c17;
 mod c18;
 mod common;
 mod json;
@@ -19,7 +21,7 @@ mod val;
 use common::*;
 
 fn all_families() -> Vec<Box<dyn Family>> {
-  vec![Box::new(c08::C08), Box::new(c18::C18), Box::new(c09::C09), Box::new(c12::C12), Box::new(thr_ops::C19Ops), Box::new(thr_ops::C19Subjects), Box::new(thr_ops::C11), Box::new(timed::C16), Box::new(timed::C15), Box::new(c01::C01), Box::new(c05::C05Seq), Box::new(c05::C05Thr)]
+  vec![Box::new(c08::C08), Box::new(c18::C18), Box::new(c09::C09), Box::new(c12::C12), Box::new(thr_ops::C19Ops), Box::new(thr_ops::C19Subjects), Box::new(thr_ops::C11), Box::new(timed::C16), Box::new(timed::C15), Box::new(c01::C01), Box::new(c05::C05Seq), Box::new(c05::C05Thr), Box::new(c06::C06), Box::new(c17::C17)]
 }
 
 fn spec_for(prop: &str) -> Option<CheckSpec> {
@@ -51,6 +53,19 @@ fn spec_for(prop: &str) -> Option<CheckSpec> {
         FamilySpec { fam: Box::new(c05::C05Seq), quick_runs: 300_000, thorough_runs: 5_000_000 },
         FamilySpec { fam: Box::new(c05::C05Thr), quick_runs: 100_000, thorough_runs: 2_000_000 },
       ],
+      quick_cap_s: 60,
+      thorough_cap_s: 900,
+    }),
+    "C06" => Some(CheckSpec {
+      property: "C06",
+      level: "fault_enumeration",
+      rule: seq_rule.to_string(),
+      assumptions: vec![
+        "the instant an operator 'has all it needs' is observed by a pass-through probe stage at its output (written like the crate's own map)".into(),
+        "the emission during which a subscription ended is not judged, the following attempts are".into(),
+        "runs that end in a self-deadlock / panic are left to C07; a livelock with an unbounded producer in the pipeline is a C06 violation".into(),
+      ],
+      families: vec![FamilySpec { fam: Box::new(c06::C06), quick_runs: 400_000, thorough_runs: 6_000_000 }],
       quick_cap_s: 60,
       thorough_cap_s: 900,
     }),
@@ -143,6 +158,19 @@ fn spec_for(prop: &str) -> Option<CheckSpec> {
       quick_cap_s: 60,
       thorough_cap_s: 900,
     }),
+    "C17" => Some(CheckSpec {
+      property: "C17",
+      level: "fault_enumeration",
+      rule: seq_rule.to_string(),
+      assumptions: vec![
+        "one counting token is cloned into the three subscribe callbacks, every closure passed to an operator and every item emitted by a scripted source; live owners = Arc::strong_count - 1 after the run".into(),
+        "the harness keeps only token-free copies of what it records".into(),
+        "only subscriptions that have ended (terminal delivered or unsubscribe called) are judged".into(),
+      ],
+      families: vec![FamilySpec { fam: Box::new(c17::C17), quick_runs: 300_000, thorough_runs: 5_000_000 }],
+      quick_cap_s: 60,
+      thorough_cap_s: 900,
+    }),
     "C18" => Some(CheckSpec {
       property: "C18",
       level: "exploration",
@@ -229,6 +257,36 @@ fn main() {
       }
     }
     "determinism" => determinism(&args[1], args.get(2).and_then(|s| s.parse().ok()).unwrap_or(200)),
+    "blocked" => {
+      // diagnostic: list runs of a family that did not end normally
+      let fams = all_families();
+      let fam = fams.iter().find(|f| f.name() == args[1]).expect("family");
+      let n: u64 = args.get(2).and_then(|s| s.parse().ok()).unwrap_or(20000);
+      let want = args.get(3).cloned().unwrap_or_default();
+      let mut seen = std::collections::BTreeMap::new();
+      for i in 0..n {
+        let seed = (env_u64("VERIF_SEED", 1) * 1_000_003 + i) & ((1 << 53) - 1);
+        let mut wr = rxsim_rt::prng::Rng::stream(seed, "workload");
+        let w = fam.gen(&mut wr, Tier::Quick);
+        let mut kr = rxsim_rt::prng::Rng::stream(seed, "knobs");
+        let knobs = fam.knobs(&mut kr, &w, Tier::Quick);
+        let out = fam.exec(&w, cfg_from_knobs(seed, &knobs));
+        if !out.res.outcome.is_ok() && out.res.outcome.class().contains(&want) {
+          let d = out.res.outcome.describe();
+          let key: String = d.chars().take(160).collect();
+          let e = seen.entry(key).or_insert((0u64, String::new(), String::new()));
+          e.0 += 1;
+          if e.1.is_empty() || w.to_string().len() < e.1.len() {
+            e.1 = w.to_string();
+            e.2 = d;
+          }
+        }
+      }
+      for (_, (c, w, d)) in seen {
+        println!("{}x {}\n   {}\n", c, d.chars().take(700).collect::<String>(), w);
+      }
+      0
+    }
     "families" => {
       for f in all_families() {
         println!("{}", f.name());
